@@ -1501,3 +1501,102 @@ func (w *World) namedPtrTag(name string) int {
 	}
 	return w.typeTag(types.NewPointer(tn.Type()))
 }
+
+// localsOf: the local variables a function declares, in source order, as
+// "name|type" (parameters, results and struct fields excluded; function
+// literals nested in it excluded).
+func (w *World) localsOf(fn *ssa.Function) []string {
+	syn := fn.Syntax()
+	if syn == nil {
+		return nil
+	}
+	var body *ast.BlockStmt
+	switch x := syn.(type) {
+	case *ast.FuncDecl:
+		body = x.Body
+	case *ast.FuncLit:
+		body = x.Body
+	}
+	if body == nil {
+		return nil
+	}
+	var out []string
+	seen := map[types.Object]bool{}
+	ast.Inspect(body, func(n ast.Node) bool {
+		if _, isLit := n.(*ast.FuncLit); isLit {
+			return false
+		}
+		if ts, isTS := n.(*ast.TypeSwitchStmt); isTS {
+			if as, ok := ts.Assign.(*ast.AssignStmt); ok && len(as.Lhs) == 1 {
+				if id, ok := as.Lhs[0].(*ast.Ident); ok && id.Name != "_" {
+					out = append(out, id.Name+"|typeswitch")
+				}
+			}
+			return true
+		}
+		id, ok := n.(*ast.Ident)
+		if !ok {
+			return true
+		}
+		obj := w.tpkg.TypesInfo.Defs[id]
+		v, isVar := obj.(*types.Var)
+		if !isVar || v.IsField() || seen[obj] || id.Name == "_" {
+			return true
+		}
+		seen[obj] = true
+		out = append(out, id.Name+"|"+strings.ReplaceAll(typeKey(v.Type()), " ", ""))
+		return true
+	})
+	// variables bound by a type switch are implicit objects (one per clause): add them by name once
+	return out
+}
+
+// renamedLocal: if the function still declares the same sequence of local
+// variable types as in the snapshot and only names differ, the current name of
+// the variable that was called `old` when the contracts were written.
+func (w *World) renamedLocal(fn *ssa.Function, old string) string {
+	snap := w.contracts.Locals[w.funcName(fn)]
+	if len(snap) == 0 {
+		return ""
+	}
+	cur := w.localsOf(fn)
+	if len(cur) != len(snap) {
+		return ""
+	}
+	res := ""
+	for i := range snap {
+		so := strings.SplitN(snap[i], "|", 2)
+		co := strings.SplitN(cur[i], "|", 2)
+		if len(so) != 2 || len(co) != 2 || so[1] != co[1] {
+			return "" // a type changed: not a pure rename
+		}
+		if so[0] == old && co[0] != old && res == "" {
+			res = co[0]
+		}
+	}
+	return res
+}
+
+// snapshotNamesOf: the names the snapshot had for the local that is now called cur.
+func (w *World) snapshotNamesOf(fn *ssa.Function, cur string) []string {
+	snap := w.contracts.Locals[w.funcName(fn)]
+	if len(snap) == 0 {
+		return nil
+	}
+	now := w.localsOf(fn)
+	if len(now) != len(snap) {
+		return nil
+	}
+	var out []string
+	for i := range snap {
+		so := strings.SplitN(snap[i], "|", 2)
+		co := strings.SplitN(now[i], "|", 2)
+		if len(so) != 2 || len(co) != 2 || so[1] != co[1] {
+			return nil
+		}
+		if co[0] == cur && so[0] != cur {
+			out = append(out, so[0])
+		}
+	}
+	return out
+}
